@@ -52,9 +52,14 @@ def cases(seed, tier):
             knobs['clock_jump'] = [rng.randrange(1000, 400000), rng.choice([500000, 2000000, 40000000])]
         c = {'profile': p, 'skip': skip, 'adm': adm, 'clock': clock, 'knobs': knobs, 'net': {'rtt_us': rng.choice([40, 200, 1000, 8000, 60000, 200000])},
              'opts': rng.choice([['-n'], ['-j'], ['-n', '-v'], ['-n', '-P', 'Hardened OpenSSH Server v9.9 (version 1)']]), 'timeout': rng.choice([1, 2, 5]), 'pseed': rng.getrandbits(32)}
-        if rng.random() < 0.2:
-            c['faults'] = [{'conn': rng.randrange(1, 10), 'msg': rng.choice(['banner', 'kexinit', 'reply', 'group']), 'kind': rng.choice(['truncate_stall', 'truncate_close', 'garbage', 'truncate_reset']),
-                            'off': rng.choice([0, 7, 50]), 'n': 30}]
+        if rng.random() < 0.3:
+            kind = rng.choice(['truncate_stall', 'truncate_close', 'garbage', 'truncate_reset', 'wrongtype', 'badblob'])
+            f = {'conn': rng.randrange(1, 10), 'msg': rng.choice(['banner', 'kexinit', 'reply', 'reply', 'group']), 'kind': kind, 'off': rng.choice([0, 7, 50]), 'n': 30}
+            if kind == 'wrongtype':
+                f = {'conn': f['conn'], 'msg': 'reply', 'kind': 'corrupt', 'off': 5, 'hex': rng.choice(['14', '15', '32', '63'])}
+            elif kind == 'badblob':
+                f = {'conn': f['conn'], 'msg': 'reply', 'kind': 'corrupt', 'off': 10, 'hex': 'ffffff'}
+            c['faults'] = [f]
         yield c
 
 
@@ -109,6 +114,8 @@ def run_case(case, ctx):
         types = [f.get('type') for f in c['frames'] if 'type' in f]
         n30 = types.count(30) + types.count(34)
         n32 = types.count(32)
+        if types.count(20) > 1:
+            out.append(viol('C19 more than one KEXINIT on one connection (connection reused for a second probe)', '%s\nframes=%r' % (ctx_txt, types)))
         if n30 > 1 or n32 > 1:
             out.append(viol('C19 more than one key-exchange request on one connection', '%s\nframes=%r' % (ctx_txt, types)))
         if n30:
